@@ -13,6 +13,7 @@ import (
 	"pgregory.net/rapid"
 
 	"verif/pbt/kit"
+	"verif/pbt/refdb"
 )
 
 type c10Case struct {
@@ -21,6 +22,7 @@ type c10Case struct {
 	B      kit.Row         `json:"b"`
 	Diff   kit.Row         `json:"diff,omitempty"`
 	Modify string          `json:"modify,omitempty"`
+	Mutate string          `json:"mutate,omitempty"`
 }
 
 // wireRow sends a row through JSON, as a notification would carry it.
@@ -38,19 +40,25 @@ type failFn func(class string, format string, args ...interface{})
 
 // checkDiffPair is the core of C10 for one model a and one target row b (a subset of columns).
 func checkDiffPair(w *kit.World, tb kit.Table, a interface{}, b kit.Row, fail failFn) (changedCols int) {
+	return checkDiffOp(w, tb, a, kit.Op{Op: "update", Table: tb.Name, Row: b, Where: []kit.Cond{}}, b, fail)
+}
+
+// checkDiffOp: the operation op (an update to the columns of b, or a mutate whose net
+// effect on a is b) is turned into a difference by the library; see TestC10.
+func checkDiffOp(w *kit.World, tb kit.Table, a interface{}, op kit.Op, b kit.Row, fail failFn) (changedCols int) {
 	const uuid = "00000000-0000-4000-8000-000000000001"
 	_, aRow, err := w.RowFromModel(tb.Name, a)
 	if err != nil {
 		fail("harness", "model a unreadable: %v", err)
 	}
 	pristine := kit.DeepCopy(a)
-	ops, err := kit.DecodeOps(w.S, []kit.Op{{Op: "update", Table: tb.Name, Row: b, Where: []kit.Cond{}}})
+	ops, err := kit.DecodeOps(w.S, []kit.Op{op})
 	if err != nil {
 		fail("harness", "op does not decode: %v", err)
 	}
 	var mu updates.ModelUpdates
 	if err := mu.AddOperation(w.DBModel, tb.Name, uuid, a, &ops[0]); err != nil {
-		fail("difference.error", "AddOperation(update) failed: %v", err)
+		fail("difference.error", "AddOperation(%s) failed: %v", op.Op, err)
 	}
 	if !reflect.DeepEqual(a, pristine) {
 		fail("difference.input-modified", "computing the difference modified the model it was computed from:\nbefore %+v\n after %+v", pristine, a)
@@ -269,6 +277,48 @@ func TestC10(t *testing.T) {
 			kit.Fail(t, "C10", class, kase, format, args...)
 		}
 		changed := checkDiffPair(w, tb, a, b, fail)
+		// the same for a mutate operation: 1-4 mutations, repeated columns and mutations
+		// without effect included; its net effect, computed by the reference interpreter,
+		// is the b of the property
+		g := kit.NewTxnGen(s, kit.TxnCfg{})
+		var muts []kit.Mut
+		curRow := aRow.Clone()
+		var lastCol *kit.Col
+		for i, nm := 0, rapid.IntRange(1, 4).Draw(t, "nmutations"); i < nm; i++ {
+			c := tb.Cols[rapid.IntRange(0, len(tb.Cols)-1).Draw(t, "mutcol")]
+			if lastCol != nil && rapid.Bool().Draw(t, "samecol") {
+				c = *lastCol
+			}
+			lastCol = &c
+			cv := curRow[c.Name]
+			m := g.GenMutation(t, c, &cv, pool)
+			if nv, errk, _ := refdb.ApplyMutation(c, cv, m); errk == "" {
+				curRow[c.Name] = nv
+			}
+			muts = append(muts, m)
+		}
+		mop := kit.Op{Op: "mutate", Table: tb.Name, Where: []kit.Cond{}, Mutations: muts}
+		mres := refdb.Exec(s, kit.State{tb.Name: kit.Rows{kit.MkUUID(1): aRow}}, []kit.Op{mop}, nil)
+		if mres.FailedAt < 0 && mres.CommitErr == "" && mres.Results[0].MayReject == "" && mres.Results[0].Count == 1 {
+			post := mres.Post[tb.Name][kit.MkUUID(1)]
+			mb := kit.Row{}
+			repeated := false
+			seenCol := map[string]bool{}
+			for _, m := range muts {
+				mb[m.Col] = post[m.Col]
+				repeated = repeated || seenCol[m.Col]
+				seenCol[m.Col] = true
+			}
+			kase.Mutate = string(kit.MustJSON(mop.Wire(s)))
+			mchanged := checkDiffOp(w, tb, a, mop, mb, fail)
+			kit.Label("C10", fmt.Sprintf("mutate:changed-columns:%d", mchanged))
+			if repeated {
+				kit.Label("C10", "mutate:column-mutated-more-than-once")
+			}
+			kase.Mutate = ""
+		} else {
+			kit.Label("C10", "mutate:rejected-by-model(skipped)")
+		}
 		// arbitrary peer difference
 		d := kit.Row{}
 		for _, c := range tb.Cols {
